@@ -323,6 +323,7 @@ def main(argv=None):
                 "known_findings_seen": {fid: len(lst) for fid, (ent, lst) in matched.items()},
                 "stale_findings": stale,
                 "hash_seed": os.environ.get("PYTHONHASHSEED"),
+                "repo": os.path.realpath(os.environ.get("MOUETTE_REPO", "/repo")),
                 "exhaustive": bool(getattr(mod, "EXHAUSTIVE", False)),
                 "verdict": verdict,
                 "inconclusive_reasons": (inconclusive + missing)[:20],
@@ -342,8 +343,11 @@ def main(argv=None):
             pass
         except Exception as e:  # schema violation: report, still write
             lines.append("EVIDENCE-SCHEMA-PROBLEM %s" % str(e)[:300])
-        os.makedirs(os.path.join(HERE, "evidence"), exist_ok=True)
-        with open(os.path.join(HERE, "evidence", prop + ".json"), "w") as f:
+        # evidence/ only ever describes runs against /repo itself; runs against a scratch worktree (seeded-change evaluation) go elsewhere
+        repo_dir = os.path.realpath(os.environ.get("MOUETTE_REPO", "/repo"))
+        ev_dir = os.path.join(HERE, "evidence") if repo_dir == "/repo" else os.path.join(HERE, "evidence_scratch", os.path.basename(repo_dir))
+        os.makedirs(ev_dir, exist_ok=True)
+        with open(os.path.join(ev_dir, prop + ".json"), "w") as f:
             json.dump(evidence, f, indent=1, sort_keys=False)
 
     for ln in lines:
